@@ -1,10 +1,13 @@
 #!/usr/bin/env python3
 """rust2coq: regenerate the T-gen part of the Coq model from /repo's current sources.
 
-Two front ends (DESIGN.md section 4):
+Three front ends (DESIGN.md section 4):
   (a) generated-code front end: the per-struct functions of src/frame/{mutable.rs,immutable/*.rs}
       -> syntax tables (Gen/Tables.v);
-  (b) expression front end: small pure functions and constants -> Gallina definitions (Gen/Funs.v).
+  (b) expression front end: small pure functions and constants -> Gallina definitions (Gen/Funs.v);
+  (c) read-layout front end: the sequential cursor reads of game_start / player / game_end in
+      src/io/slippi/de.rs -> (name, offset, width) tables (Gen/Layouts.v), checked against the hand model
+      Model/Start.v by Proofs/StartLayout.v.
 
 Anything it does not recognise is a loud failure (exit 3, message naming file/item/token): the checks then
 treat every property that depends on the tables as "tie broken" and go searching for a failing input.
@@ -1300,6 +1303,775 @@ def emit_tables(T):
     return '\n'.join(L) + '\n'
 
 
+# ------------------------------------------------------------------------------------------------
+# (c) read-layout front end: the sequential cursor reads of game_start / player / game_end (src/io/slippi/de.rs)
+#
+# The three functions decode a byte block by a straight-line sequence of reads from a cursor `r`.  This front end
+# walks their bodies symbolically and regenerates, for every read, its offset and width (Gen/Layouts.v);
+# Proofs/StartLayout.v then restates the hand model Model/Start.v through these tables.  Every token that could
+# move a cursor (`r`, read*, player_bytes, if_more) has to be accounted for by a recognised form, otherwise the
+# translation fails loudly.
+
+DE_RS = 'src/io/slippi/de.rs'
+READ_W = {'u8': 1, 'i8': 1, 'u16': 2, 'i16': 2, 'u32': 4, 'i32': 4, 'f32': 4, 'u64': 8, 'i64': 8, 'f64': 8}
+CURSOR = 'r'
+CURSOR_NOADV = ('to_vec', 'is_empty', 'len')      # cursor methods that do not move it
+LAYOUT_BINOPS = ('==', '!=', '<', '>', '<=', '>=', '&&', '||', '+', '-', '*', '/', '%', '|', '^', '&')
+BLOCK_KW = ('match', 'if', 'while', 'for', 'loop', 'unsafe')
+NOT_OPERAND_END = BLOCK_KW + ('return', 'in', 'as', 'mut', 'move', 'else', 'let', 'break', 'continue')
+IF_MORE_BODY = 'Ok ( match r . is_empty ( ) { true => None , _ => Some ( f ( r ) ? ) } )'
+PLAYER_BYTES_BODY = ('let mut arrs : [ [ u8 ; N ] ; M ] = [ [ 0 ; N ] ; M ] ; '
+                     'arrs . iter_mut ( ) . try_for_each ( | buf | r . read_exact ( buf ) ) ? ; Ok ( arrs )')
+
+
+def is_trigger(tok):
+    return tok[0] == 'id' and (tok[1] == CURSOR or tok[1] in ('player_bytes', 'if_more')
+                               or re.fullmatch(r'read(_\w+)?', tok[1]) is not None)
+
+
+class Cursor:
+    def __init__(self, src, declared=None):
+        self.src = src            # what the cursor runs over: a parameter name, or '<tail NAME>'
+        self.declared = declared  # size of the block from its type, if known
+        self.off = 0
+        self.reads = []           # (name | None, offset, width)
+        self.arrays = []          # (name, N, M) for player_bytes::<N, M>
+
+
+class LayoutWalker:
+    def __init__(self, fn_name, body, consts, block_params, main_cursor):
+        self.fn = fn_name
+        self.t = body
+        self.where = '%s fn %s' % (DE_RS, fn_name)
+        self.consts = consts              # callable: name -> int
+        self.block_params = block_params  # name -> declared size, for `let mut r = &NAME[..]`
+        self.used = set()
+        self.bufs = {}                    # local byte buffers: name -> size
+        self.cur = Cursor('r') if main_cursor else None
+        self.main = self.cur
+        self.tables = {}                  # source name -> Cursor (for rebinding cursors)
+        self.tails = []                   # (name, size, inner named reads)
+        self.tail_arrays = []
+        self.in_tail = False
+        self.depth = 0                    # block nesting depth below the fn body
+
+    # ---- errors / small helpers
+    def ctx(self, i):
+        return ' '.join(tv(self.t[max(0, i - 8):i + 10]))
+
+    def fail(self, msg, i=None):
+        raise TranslateError('%s: %s%s' % (self.where, msg, (' -- near `%s`' % self.ctx(i)) if i is not None else ''))
+
+    def close(self, i):
+        return match_close(self.t, i)
+
+    def is_p(self, i, v):
+        return i < len(self.t) and self.t[i] == ('punct', v)
+
+    def is_id(self, i, v=None):
+        return i < len(self.t) and self.t[i][0] == 'id' and (v is None or self.t[i][1] == v)
+
+    def has_trig(self, lo, hi):
+        return any(is_trigger(self.t[i]) for i in range(lo, hi))
+
+    def text(self, lo, hi):
+        return sj(self.t[lo:hi])
+
+    def angle_close(self, i):
+        """self.t[i] is '<' opening a generic argument list; index of the matching '>'"""
+        d = 0
+        j = i
+        while j < len(self.t):
+            if self.t[j] == ('punct', '<'):
+                d += 1
+            elif self.t[j] == ('punct', '>'):
+                d -= 1
+                if d == 0:
+                    return j
+            elif self.t[j][0] == 'punct' and self.t[j][1] in ('(', '[', '{'):
+                j = self.close(j)
+            j += 1
+        self.fail('unbalanced <', i)
+
+    def skip_closure_params(self, i, hi):
+        """self.t[i] is '|' opening closure parameters; index just after the closing '|'"""
+        j = i + 1
+        while j < hi:
+            if self.t[j] == ('punct', '|'):
+                return j + 1
+            if self.t[j][0] == 'punct' and self.t[j][1] in ('(', '[', '{'):
+                j = self.close(j)
+            j += 1
+        self.fail('unterminated closure parameters', i)
+
+    def split_top(self, lo, hi, sep):
+        """split [lo, hi) at depth-0 occurrences of the punctuation `sep`; -> (segments, ends_with_sep)"""
+        segs = []
+        i = s = lo
+        while i < hi:
+            k, v = self.t[i]
+            if k == 'punct':
+                if v in ('(', '[', '{'):
+                    i = self.close(i) + 1
+                    continue
+                if v == '::' and self.is_p(i + 1, '<'):
+                    i = self.angle_close(i + 1) + 1
+                    continue
+                if v == '|' and (i == s or self.is_id(i - 1, 'move')):
+                    i = self.skip_closure_params(i, hi)
+                    continue
+                if v == sep:
+                    segs.append((s, i))
+                    s = i + 1
+            i += 1
+        trailing = s >= hi and len(segs) > 0
+        if s < hi:
+            segs.append((s, hi))
+        return segs, trailing
+
+    def first_top(self, lo, hi, v):
+        """index of the first depth-0 punctuation v in [lo, hi), or -1"""
+        i = lo
+        while i < hi:
+            k, x = self.t[i]
+            if k == 'punct':
+                if x == v:
+                    return i
+                if x in ('(', '[', '{'):
+                    i = self.close(i) + 1
+                    continue
+                if x == '::' and self.is_p(i + 1, '<'):
+                    i = self.angle_close(i + 1) + 1
+                    continue
+            i += 1
+        return -1
+
+    def kw_end(self, i, hi):
+        """self.t[i] is match/if/while/for/loop/unsafe: index just after the whole block-like expression"""
+        j = self.first_top(i + 1, hi, '{')
+        if j < 0:
+            self.fail('`%s` without a block' % self.t[i][1], i)
+        c = self.close(j)
+        if self.t[i][1] == 'if':
+            while self.is_id(c + 1, 'else') and c + 1 < hi:
+                if self.is_id(c + 2, 'if'):
+                    j = self.first_top(c + 3, hi, '{')
+                    if j < 0:
+                        self.fail('`else if` without a block', c + 1)
+                    c = self.close(j)
+                elif self.is_p(c + 2, '{'):
+                    c = self.close(c + 2)
+                else:
+                    self.fail('`else` without a block', c + 1)
+        return c + 1
+
+    def const(self, tok, i):
+        k, v = tok
+        if k == 'num':
+            return num(v)
+        if k == 'id':
+            return self.consts(v)
+        self.fail('expected an integer literal or a constant, got %r' % v, i)
+
+    # ---- recording
+    @staticmethod
+    def namepath(path):
+        """innermost named binder (let name / struct field), followed by the tuple/array indices below it"""
+        if not path:
+            return None
+        k = -1
+        for idx, c in enumerate(path):
+            if not c.isdigit():
+                k = idx
+        return '.'.join(path[max(k, 0):])
+
+    def emit_read(self, path, w, i, named=True, arr=None):
+        if self.cur is None:
+            self.fail('read before any cursor is bound', i)
+        if w <= 0:
+            self.fail('read of %d bytes' % w, i)
+        if self.cur is self.main and self.tails and not self.in_tail:
+            self.fail('unconditional read after an optional tail (if_more): the layout is no longer fixed part + tails', i)
+        name = self.namepath(path) if named else None
+        self.cur.reads.append((name, self.cur.off, w))
+        if arr:
+            self.cur.arrays.append((name, arr[0], arr[1]))
+        self.cur.off += w
+        if self.cur.declared is not None and self.cur.off > self.cur.declared:
+            self.fail('reads %d bytes from the %d-byte block %s' % (self.cur.off, self.cur.declared, self.cur.src), i)
+
+    # ---- statements
+    def statements(self, lo, hi):
+        """-> list of (lo, hi) statement ranges (without the ';')"""
+        out = []
+        i = lo
+        while i < hi:
+            s = i
+            if self.is_p(i, ';'):
+                i += 1
+                continue
+            e = None
+            if self.is_id(i) and self.t[i][1] in BLOCK_KW:
+                e = self.kw_end(i, hi)
+            elif self.is_p(i, '{'):
+                e = self.close(i) + 1
+            if e is not None and not (self.is_p(e, '.') or self.is_p(e, '?')):
+                out.append((s, e))
+                i = e
+                continue
+            j = self.first_top(i, hi, ';')
+            if j < 0:
+                j = hi
+            out.append((s, j))
+            i = j + 1
+        return out
+
+    def walk_block(self, lo, hi, path):
+        saved_bufs, saved_cur = dict(self.bufs), self.cur
+        self.depth += 1
+        for (s, e) in self.statements(lo, hi):
+            self.statement(s, e, path)
+        self.depth -= 1
+        self.bufs, self.cur = saved_bufs, saved_cur
+
+    def statement(self, s, e, path):
+        txt = self.text(s, e)
+        # local byte buffers
+        m = re.fullmatch(r'let mut (\w+)(?: : \[ u8 ; (\w+) \])? = \[ (\w+) ; (\w+) \]', txt)
+        if m and m.group(1) != CURSOR:
+            n = self.const(self.t[e - 2], e - 2)
+            if m.group(2) is not None and self.const(('id' if not m.group(2)[0].isdigit() else 'num', m.group(2)), s) != n:
+                self.fail('buffer %s: type and initialiser disagree' % m.group(1), s)
+            self.bufs[m.group(1)] = n
+            return
+        m = re.match(r'let (?:mut )?([\w#]+) ', txt)
+        if m and fname(m.group(1)) in self.bufs:
+            del self.bufs[fname(m.group(1))]          # shadowed by something that is not a byte buffer
+        if not self.has_trig(s, e):
+            return
+        # a new cursor over a block: let mut r = &NAME[..];
+        m = re.fullmatch(r'let mut %s = & (\w+) \[ \.\. \]' % CURSOR, txt)
+        if m:
+            src = m.group(1)
+            if src not in self.block_params:
+                self.fail('cursor over %s, which is not a byte-array parameter of the function' % src, s)
+            if src in self.tables:
+                self.fail('two cursors over the same block %s' % src, s)
+            self.cur = Cursor(src, self.block_params[src])
+            self.tables[src] = self.cur
+            self.used.add(s + 2)
+            return
+        if self.is_id(s, 'let'):
+            i = s + 1
+            if self.is_id(i, 'mut'):
+                i += 1
+            if not self.is_id(i) or not (self.is_p(i + 1, '=') or self.is_p(i + 1, ':')):
+                self.fail('unsupported `let` pattern in a statement that reads the cursor', s)
+            name = fname(self.t[i][1])
+            if name == CURSOR:
+                self.fail('unrecognised rebinding of the cursor', s)
+            i += 1
+            if self.is_p(i, ':'):
+                d = 0
+                while i < e and not (d == 0 and self.is_p(i, '=')):
+                    if self.is_p(i, '<'):
+                        d += 1
+                    elif self.is_p(i, '>'):
+                        d -= 1
+                    elif self.t[i][0] == 'punct' and self.t[i][1] in ('(', '[', '{'):
+                        i = self.close(i)
+                    i += 1
+                if i >= e:
+                    self.fail('`let` without initialiser', s)
+            if self.is_id(i + 1, 'if_more'):
+                self.tail(name, i + 1, e, path)
+            else:
+                self.walk_expr(i + 1, e, path + [name])
+            return
+        self.walk_expr(s, e, path)
+
+    # ---- optional tails: let NAME = if_more(r, |r| BODY)?;
+    def tail(self, name, lo, e, path):
+        if self.depth != 1 or path or self.in_tail or self.cur is not self.main or self.main is None:
+            self.fail('if_more is only recognised as `let <name> = if_more(r, |r| ...)?;` at the top level of the function', lo)
+        if not self.is_p(lo + 1, '('):
+            self.fail('if_more without arguments', lo)
+        c = self.close(lo + 1)
+        rest = tv(self.t[c + 1:e])
+        if rest not in ([], ['?']):
+            self.fail('unexpected tokens after if_more(..): %s' % ' '.join(rest), c)
+        args, _ = self.split_top(lo + 2, c, ',')
+        if len(args) != 2 or tv(self.t[args[0][0]:args[0][1]]) != [CURSOR]:
+            self.fail('if_more: expected the arguments (r, |r| ...)', lo)
+        a, b = args[1]
+        if not (self.is_p(a, '|') and self.is_id(a + 1, CURSOR) and self.is_p(a + 2, '|')) or a + 3 >= b:
+            self.fail('if_more: the second argument is not a closure |r| ...', a)
+        self.used.update((lo, args[0][0], a + 1))
+        tc = Cursor('<tail %s>' % name)
+        self.cur, self.in_tail = tc, True
+        self.walk_expr(a + 3, b, [])
+        self.cur, self.in_tail = self.main, False
+        if tc.off == 0:
+            self.fail('optional tail %s reads nothing' % name, lo)
+        self.tails.append((name, tc.off, [r for r in tc.reads if r[0] is not None]))
+        for (n, N, M) in tc.arrays:
+            self.tail_arrays.append((name if n is None else '%s.%s' % (name, n), N, M))
+
+    # ---- expressions
+    def walk_expr(self, lo, hi, path):
+        """record the reads of the expression [lo, hi) in evaluation order; sub-expressions that do not mention a
+        cursor are not looked into"""
+        if not self.has_trig(lo, hi):
+            return
+        operands = []      # (lo, hi, operator before it)
+        i = start = lo
+        want = True        # expecting the start of an operand
+        op = None
+        while i < hi:
+            k, v = self.t[i]
+            if want:
+                if k == 'punct' and v in ('!', '-', '*', '&', '&&'):
+                    i += 1
+                elif k == 'id' and v == 'mut' and i > lo and self.t[i - 1][1] in ('&', '&&'):
+                    i += 1
+                elif k == 'id' and v in BLOCK_KW:
+                    i = self.kw_end(i, hi)
+                    want = False
+                elif (k == 'id' and v == 'move') or (k == 'punct' and v in ('|', '||')):
+                    i = hi                       # a closure extends to the end of the expression
+                    want = False
+                elif k == 'id' and v in ('return', 'break', 'continue', 'let', 'else', 'in', 'as'):
+                    self.fail('`%s` in an expression that reads the cursor' % v, i)
+                elif k == 'punct' and v in ('(', '[', '{'):
+                    i = self.close(i) + 1
+                    want = False
+                elif k in ('id', 'num', 'str', 'char'):
+                    i += 1
+                    want = False
+                else:
+                    self.fail('unexpected token %r in an expression that reads the cursor' % v, i)
+            else:
+                if k == 'punct' and v == '.':
+                    if i + 1 >= hi or self.t[i + 1][0] not in ('id', 'num'):
+                        self.fail('unexpected token after `.`', i)
+                    i += 2
+                elif k == 'punct' and v == '::':
+                    if self.is_p(i + 1, '<'):
+                        i = self.angle_close(i + 1) + 1
+                    elif self.is_id(i + 1):
+                        i += 2
+                    else:
+                        self.fail('unexpected token after `::`', i)
+                elif k == 'punct' and v == '?':
+                    i += 1
+                elif k == 'punct' and v in ('(', '['):
+                    i = self.close(i) + 1
+                elif k == 'punct' and v == '{':
+                    if self.t[i - 1][0] != 'id' and not self.is_p(i - 1, '>'):
+                        self.fail('unexpected block in an expression that reads the cursor', i)
+                    i = self.close(i) + 1        # struct literal
+                elif k == 'punct' and v == '!' and i + 1 < hi and self.t[i + 1][0] == 'punct' and self.t[i + 1][1] in ('(', '[', '{') \
+                        and self.t[i - 1][0] == 'id':
+                    i = self.close(i + 1) + 1    # macro call
+                elif k == 'id' and v == 'as':
+                    i += 1                       # the type: & * mut const, a path with generics, or a bracketed type
+                    while i < hi and (self.t[i][1] in ('&', '*', 'mut', 'const', '::') or self.t[i][0] == 'id'
+                                      or (self.is_p(i, '<') and self.t[i - 1][0] == 'id')
+                                      or (self.t[i][0] == 'punct' and self.t[i][1] in ('(', '['))):
+                        if self.is_p(i, '<'):
+                            i = self.angle_close(i) + 1
+                        elif self.t[i][0] == 'punct' and self.t[i][1] in ('(', '['):
+                            i = self.close(i) + 1
+                            break
+                        else:
+                            i += 1
+                elif k == 'punct' and v in LAYOUT_BINOPS:
+                    operands.append((start, i, op))
+                    op, start, want = v, i + 1, True
+                    i += 1
+                else:
+                    self.fail('unsupported token %r in an expression that reads the cursor' % v, i)
+        if want:
+            self.fail('incomplete expression', hi - 1)
+        operands.append((start, hi, op))
+        for (a, b, o) in operands:
+            if o in ('&&', '||') and self.has_trig(a, b):
+                self.fail('read of the cursor on the right of `%s` (conditional read)' % o, a)
+            self.walk_operand(a, b, path)
+
+    def args(self, lo, hi, path, tuple_like):
+        """comma-separated expressions in [lo, hi); components are named by position when there are several
+        (or always, for tuples with a trailing comma and arrays)"""
+        segs, trailing = self.split_top(lo, hi, ',')
+        index = len(segs) > 1 or (tuple_like and (trailing or tuple_like == 'array'))
+        for idx, (a, b) in enumerate(segs):
+            self.walk_expr(a, b, path + [str(idx)] if index else path)
+
+    def walk_operand(self, lo, hi, path):
+        if not self.has_trig(lo, hi):
+            return
+        i = lo
+        while i < hi and (self.t[i] in (('punct', '!'), ('punct', '-'), ('punct', '*'), ('punct', '&'), ('punct', '&&'))
+                          or (self.is_id(i, 'mut') and i > lo)):
+            i += 1
+        if i >= hi:
+            self.fail('incomplete expression', lo)
+        k, v = self.t[i]
+        if k == 'id' and v == 'match':
+            j = self.first_top(i + 1, hi, '{')
+            self.walk_expr(i + 1, j, path)
+            c = self.close(j)
+            self.arms(j + 1, c, path)
+            i = c + 1
+        elif k == 'id' and v == 'if':
+            j = self.first_top(i + 1, hi, '{')
+            if self.is_id(i + 1, 'let') and self.has_trig(i + 1, j):
+                self.fail('`if let` on a read of the cursor', i)
+            self.walk_expr(i + 1, j, path)
+            e = self.kw_end(i, hi)
+            if self.has_trig(j, e):
+                self.fail('read of the cursor inside an `if` branch (conditional read)', j)
+            i = e
+        elif k == 'id' and v == 'unsafe':
+            j = self.first_top(i + 1, hi, '{')
+            c = self.close(j)
+            self.walk_block(j + 1, c, path)
+            i = c + 1
+        elif k == 'id' and v in ('while', 'for', 'loop'):
+            self.fail('read of the cursor inside a `%s` loop' % v, i)
+        elif (k == 'id' and v == 'move') or (k == 'punct' and v in ('|', '||')):
+            self.fail('the cursor is used inside a closure (only `if_more(r, |r| ...)` is recognised)', i)
+        elif k == 'punct' and v == '(':
+            c = self.close(i)
+            self.args(i + 1, c, path, 'tuple')
+            i = c + 1
+        elif k == 'punct' and v == '[':
+            c = self.close(i)
+            if self.first_top(i + 1, c, ';') >= 0:
+                self.fail('read of the cursor inside a repeat expression [e; n]', i)
+            self.args(i + 1, c, path, 'array')
+            i = c + 1
+        elif k == 'punct' and v == '{':
+            c = self.close(i)
+            self.walk_block(i + 1, c, path)
+            i = c + 1
+        elif k in ('num', 'str', 'char'):
+            i += 1
+        elif k == 'id':
+            segs = [v]
+            fish = None
+            j = i + 1
+            while self.is_p(j, '::') and j < hi:
+                if self.is_p(j + 1, '<'):
+                    g = self.angle_close(j + 1)
+                    fish = (j + 2, g)
+                    j = g + 1
+                elif self.is_id(j + 1):
+                    segs.append(self.t[j + 1][1])
+                    fish = None
+                    j += 2
+                else:
+                    self.fail('unexpected token after `::`', j)
+            if segs == [CURSOR]:
+                i = self.cursor_method(i, hi, path)
+            elif segs[-1] == 'if_more':
+                self.fail('if_more is only recognised as `let <name> = if_more(r, |r| ...)?;` at the top level of the function', i)
+            elif segs[-1] == 'player_bytes':
+                if segs != ['player_bytes'] or fish is None or not self.is_p(j, '('):
+                    self.fail('player_bytes: expected player_bytes::<N, M>(r)', i)
+                c = self.close(j)
+                g, _ = self.split_top(fish[0], fish[1], ',')
+                if tv(self.t[j + 1:c]) not in ([CURSOR], [CURSOR, ',']) or len(g) != 2 or any(b - a != 1 for a, b in g):
+                    self.fail('player_bytes: expected player_bytes::<N, M>(r)', i)
+                N, M = self.const(self.t[g[0][0]], g[0][0]), self.const(self.t[g[1][0]], g[1][0])
+                self.used.update((i, j + 1))
+                self.emit_read(path, N * M, i, arr=(N, M))
+                i = c + 1
+            elif CURSOR in segs or any(is_trigger(('id', x)) for x in segs):
+                self.fail('unrecognised use of %s' % '::'.join(segs), i)
+            elif self.is_p(j, '(') and j < hi:
+                c = self.close(j)
+                self.args(j + 1, c, path, None)
+                i = c + 1
+            elif self.is_p(j, '{') and j < hi:
+                c = self.close(j)
+                fields, _ = self.split_top(j + 1, c, ',')
+                for (a, b) in fields:
+                    if self.is_id(a) and self.is_p(a + 1, ':'):
+                        self.walk_expr(a + 2, b, path + [fname(self.t[a][1])])
+                    elif self.has_trig(a, b):
+                        self.fail('unrecognised struct-literal field that mentions the cursor', a)
+                i = c + 1
+            elif self.is_p(j, '!') and j + 1 < hi and self.t[j + 1][1] in ('(', '[', '{'):
+                c = self.close(j + 1)
+                if self.has_trig(j + 1, c):
+                    self.fail('the cursor is used inside a macro call %s!' % '::'.join(segs), i)
+                i = c + 1
+            else:
+                i = j
+        else:
+            self.fail('unexpected token %r' % v, i)
+        # postfix chain
+        while i < hi:
+            k, v = self.t[i]
+            if k == 'punct' and v == '?':
+                i += 1
+            elif k == 'punct' and v == '.':
+                i += 2
+                if self.is_p(i, '::') and self.is_p(i + 1, '<'):
+                    i = self.angle_close(i + 1) + 1
+                if self.is_p(i, '(') and i < hi:
+                    c = self.close(i)
+                    self.args(i + 1, c, path, None)
+                    i = c + 1
+            elif k == 'punct' and v == '[':
+                c = self.close(i)
+                self.walk_expr(i + 1, c, path)
+                i = c + 1
+            elif k == 'punct' and v == '(':
+                c = self.close(i)
+                self.args(i + 1, c, path, None)
+                i = c + 1
+            elif k == 'id' and v == 'as':
+                if self.has_trig(i, hi):
+                    self.fail('unexpected use of the cursor after `as`', i)
+                i = hi
+            else:
+                self.fail('unsupported token %r after an expression that reads the cursor' % v, i)
+
+    def arms(self, lo, hi, path):
+        """match arms: a cursor may only be used in an arm that is a block starting with its own cursor
+        `let mut r = &BLOCK[..];` (a separate table); anything else would be a conditional read"""
+        if not self.has_trig(lo, hi):
+            return
+        i = lo
+        while i < hi:
+            a = self.first_top(i, hi, '=>')
+            if a < 0:
+                if self.has_trig(i, hi):
+                    self.fail('unrecognised match arm that mentions the cursor', i)
+                break
+            if self.has_trig(i, a):
+                self.fail('the cursor is used in a match pattern or guard', i)
+            if self.is_p(a + 1, '{'):
+                c = self.close(a + 1)
+                if self.has_trig(a + 1, c):
+                    sts = self.statements(a + 2, c)
+                    if not sts or not re.fullmatch(r'let mut %s = & \w+ \[ \.\. \]' % CURSOR, self.text(*sts[0])):
+                        self.fail('read of the cursor inside a match arm (conditional read)', a)
+                    self.walk_block(a + 2, c, path)
+                i = c + 1
+                if self.is_p(i, ','):
+                    i += 1
+            else:
+                e = self.first_top(a + 1, hi, ',')
+                if e < 0:
+                    e = hi
+                if self.has_trig(a + 1, e):
+                    self.fail('read of the cursor inside a match arm (conditional read)', a)
+                i = e + 1
+
+    def cursor_method(self, i, hi, path):
+        """self.t[i] is the bare cursor; -> index after the method call"""
+        if not (self.is_p(i + 1, '.') and self.is_id(i + 2)):
+            self.fail('the cursor is passed on or used in an unrecognised way', i)
+        m = self.t[i + 2][1]
+        j = i + 3
+        fish = None
+        if self.is_p(j, '::') and self.is_p(j + 1, '<'):
+            g = self.angle_close(j + 1)
+            fish = ' '.join(tv(self.t[j + 2:g]))
+            j = g + 1
+        if not self.is_p(j, '(') or j >= hi:
+            self.fail('the cursor is used in an unrecognised way', i)
+        c = self.close(j)
+        a = tv(self.t[j + 1:c])
+        if a and a[-1] == ',':
+            a = a[:-1]
+        self.used.update((i, i + 2))
+        mm = re.fullmatch(r'read_(\w+)', m)
+        if mm and mm.group(1) in READ_W:
+            w = READ_W[mm.group(1)]
+            if a:
+                self.fail('%s with arguments' % m, i)
+            if w > 1 and fish not in ('BE', 'BigEndian', 'byteorder :: BigEndian'):
+                self.fail('%s::<%s>: only big-endian reads are modelled (be_at)' % (m, fish), i)
+            if w == 1 and fish is not None:
+                self.fail('%s with a type argument' % m, i)
+            self.emit_read(path, w, i)
+        elif m == 'read_exact':
+            if len(a) == 3 and a[:2] == ['&', 'mut'] and a[2] in self.bufs:
+                self.emit_read(path, self.bufs[a[2]], i)                       # a whole local buffer: a named read
+            elif len(a) >= 6 and a[:2] == ['&', 'mut'] and a[2] in self.bufs and a[3] == '[' and a[-1] == ']' and '..' in a[4:-1]:
+                rng = self.t[j + 1 + 4:j + 1 + len(a) - 1]
+                d = tv(rng).index('..')
+                if len(rng) not in (d + 1, d + 2) or d > 1:
+                    self.fail('read_exact: unrecognised range', i)
+                lo_ = self.const(rng[0], i) if d == 1 else 0
+                hi_ = self.const(rng[d + 1], i) if len(rng) == d + 2 else self.bufs[a[2]]
+                if not (lo_ <= hi_ <= self.bufs[a[2]]):
+                    self.fail('read_exact: range %d..%d outside the %d-byte buffer %s' % (lo_, hi_, self.bufs[a[2]], a[2]), i)
+                self.emit_read(path, hi_ - lo_, i, named=False)                # a slice of a scratch buffer: skipped bytes
+            else:
+                self.fail('read_exact: the destination is not `&mut <local [0; N] buffer>` or a literal range of one', i)
+        elif m in CURSOR_NOADV:
+            if a or fish:
+                self.fail('%s with arguments' % m, i)
+        else:
+            self.fail('unrecognised cursor method %s' % m, i)
+        return c + 1
+
+    # ---- driver
+    def run(self):
+        for i, tok in enumerate(self.t):
+            if tok == ('id', 'return'):
+                self.fail('`return`: the reads after it would be conditional', i)
+        self.walk_block(0, len(self.t), [])
+        for i, tok in enumerate(self.t):
+            if is_trigger(tok) and i not in self.used:
+                self.fail('`%s` is not part of any recognised read form' % tok[1], i)
+        for cur in [self.main] + list(self.tables.values()):
+            if cur is not None:
+                self.check_unique(cur.src, [r[0] for r in cur.reads])
+        self.check_unique('tails', [n for n, _, _ in self.tails])
+        for n, _, inner in self.tails:
+            self.check_unique('tail ' + n, [r[0] for r in inner])
+        return self
+
+    def check_unique(self, what, names):
+        seen = set()
+        for n in names:
+            if n is None:
+                continue
+            if n in seen:
+                self.fail('%s: two reads named %s' % (what, n))
+            seen.add(n)
+
+
+def layout_consts():
+    """resolver for the integer constants used as sizes in de.rs: local consts, or those imported from crate::game"""
+    toks = tokenize(read(DE_RS), DE_RS)
+    vals = tv(toks)
+    imported = set()
+    i = 0
+    while i < len(vals):
+        if vals[i] == 'use' and toks[i][0] == 'id':
+            e = vals.index(';', i)
+            j = i
+            while j < e:
+                if vals[j] == 'game' and vals[j + 1] == '::' and vals[j + 2] == '{' and (vals[j - 1] in ('{', ',') or vals[j - 2] == 'crate'):
+                    c = match_close(toks, j + 2)
+                    d = 0
+                    for x in range(j + 3, c):
+                        if vals[x] == '{':
+                            d += 1
+                        elif vals[x] == '}':
+                            d -= 1
+                        elif d == 0 and toks[x][0] == 'id' and vals[x - 1] in ('{', ','):
+                            imported.add(vals[x])
+                    j = c
+                j += 1
+            i = e
+        i += 1
+    cache = {}
+
+    def resolve(name):
+        if name not in cache:
+            try:
+                cache[name] = int_const(DE_RS, name)
+            except TranslateError:
+                if name not in imported:
+                    raise TranslateError('%s: cannot resolve the constant %s (neither local nor imported from crate::game)' % (DE_RS, name))
+                cache[name] = int_const('src/game/mod.rs', name)
+        return cache[name]
+    return resolve
+
+
+def check_layout_helpers():
+    """the helpers whose meaning the walker builds in: if_more, player_bytes, BE"""
+    toks = tokenize(read(DE_RS), DE_RS)
+    params, ret, body = find_fn(DE_RS, None, 'if_more')
+    if sj(body) != IF_MORE_BODY or not sj(params).startswith('r : & mut & [ u8 ] , f : F'):
+        raise TranslateError('%s fn if_more: not the expected helper (run the closure iff bytes remain): %s' % (DE_RS, sj(body)[:200]))
+    params, ret, body = find_fn(DE_RS, None, 'player_bytes')
+    if sj(body) != PLAYER_BYTES_BODY or sj(params) != 'r : & mut & [ u8 ]' or sj(ret) != '-> Result < [ [ u8 ; N ] ; M ] >' \
+            or find_seq(toks, ['fn', 'player_bytes', '<', 'const', 'N', ':', 'usize', ',', 'const', 'M', ':', 'usize']) < 0:
+        raise TranslateError('%s fn player_bytes: not the expected helper (read M arrays of N bytes): %s' % (DE_RS, sj(body)[:200]))
+    if find_seq(toks, ['type', 'BE', '=', 'byteorder', '::', 'BigEndian', ';']) < 0:
+        raise TranslateError('%s: `type BE = byteorder::BigEndian;` not found' % DE_RS)
+
+
+def walk_layout(fn_name, consts):
+    params, ret, body = find_fn(DE_RS, None, fn_name)
+    ps = parse_params(params, '%s fn %s' % (DE_RS, fn_name))
+    blocks = {}
+    for nm, ty in ps:
+        m = re.fullmatch(r'& \[ u8 ; (\w+) \]', ty) or re.fullmatch(r'Option < \[ u8 ; (\w+) \] >', ty)
+        if m:
+            blocks[nm] = num(m.group(1)) if m.group(1)[0].isdigit() else consts(m.group(1))
+    main = (CURSOR, '& mut & [ u8 ]') in ps
+    if not main and any(nm == CURSOR for nm, _ in ps):
+        raise TranslateError('%s fn %s: parameter r is not `&mut &[u8]`' % (DE_RS, fn_name))
+    return LayoutWalker(fn_name, body, consts, blocks, main).run(), ps, blocks
+
+
+def coq_reads(reads):
+    return '[%s]' % '; '.join('(%s, %d, %d)' % (coq_str(n), o, w) for (n, o, w) in reads if n is not None)
+
+
+def coq_tails(tails):
+    return '[%s]' % ';\n   '.join('(%s, %d, %s)' % (coq_str(n), sz, coq_reads(inner)) for (n, sz, inner) in tails)
+
+
+def gen_layouts():
+    check_layout_helpers()
+    consts = layout_consts()
+    L = []
+    L.append('(* GENERATED by tools/rust2coq.py from %s (fn game_start, player, game_end) -- do not edit.' % DE_RS)
+    L.append('   Each function decodes a block by a straight-line sequence of reads from a cursor; these tables are the')
+    L.append('   (name, offset, width) of every named read, recomputed from the Rust text on every run. *)')
+    L.append('From Coq Require Import List String.')
+    L.append('Import ListNotations.')
+    L.append('Local Open Scope string_scope.')
+    L.append('')
+
+    def fixed_and_tails(fn, prefix):
+        w, ps, blocks = walk_layout(fn, consts)
+        if w.main is None or w.tables:
+            raise TranslateError('%s fn %s: expected a single cursor, the parameter r' % (DE_RS, fn))
+        L.append('(* %s fn %s: sequential reads; (name, offset, width) of every named read in the fixed part *)' % (DE_RS, fn))
+        L.append('Definition %s_reads : list (string * nat * nat) :=\n  %s.' % (prefix, coq_reads(w.main.reads)))
+        L.append('Definition %s_fixed_size : nat := %d.' % (prefix, w.main.off))
+        L.append('(* the optional tails `let <name> = if_more(r, |r| ...)?;` in order:')
+        L.append('   (name, size, named reads inside the tail relative to its start) *)')
+        L.append('Definition %s_tails : list (string * nat * list (string * nat * nat)) :=\n  %s.' % (prefix, coq_tails(w.tails)))
+        return w
+
+    w = fixed_and_tails('game_start', 'start')
+    arrays = [(n, N, M) for (n, N, M) in w.main.arrays] + w.tail_arrays
+    L.append('(* player_bytes::<N, M>(r) reads: (name, N, M), i.e. M consecutive arrays of N bytes *)')
+    L.append('Definition start_player_arrays : list (string * nat * nat) :=\n  %s.' % coq_reads(arrays))
+    L.append('')
+
+    w, ps, blocks = walk_layout('player', consts)
+    if w.main is not None or sorted(w.tables) != ['v0', 'v1_0'] or w.tails:
+        raise TranslateError('%s fn player: expected exactly the cursors `let mut r = &v0[..]` and `let mut r = &v1_0[..]`, found %s'
+                             % (DE_RS, sorted(w.tables)))
+    L.append('(* %s fn player: reads from the cursor `let mut r = &v0[..]` over the %d-byte block v0 *)' % (DE_RS, blocks['v0']))
+    L.append('Definition player_reads : list (string * nat * nat) :=\n  %s.' % coq_reads(w.tables['v0'].reads))
+    L.append('Definition player_read_total : nat := %d.' % w.tables['v0'].off)
+    L.append('(* ... and from the cursor `let mut r = &v1_0[..]` inside `match v1_0 { Some(v1_0) => ..` *)')
+    L.append('Definition player_ucf_reads : list (string * nat * nat) :=\n  %s.' % coq_reads(w.tables['v1_0'].reads))
+    L.append('Definition player_ucf_read_total : nat := %d.' % w.tables['v1_0'].off)
+    L.append('(* the byte-array parameters of player and their sizes, from their types *)')
+    L.append('Definition player_block_sizes : list (string * nat) :=\n  [%s].' % '; '.join(
+        '(%s, %d)' % (coq_str(nm), blocks[nm]) for nm, _ in ps if nm in blocks))
+    L.append('')
+
+    fixed_and_tails('game_end', 'end')
+    return '\n'.join(L) + '\n'
+
+
 def write_if_changed(path, content):
     os.makedirs(os.path.dirname(path), exist_ok=True)
     try:
@@ -1316,7 +2088,7 @@ def write_if_changed(path, content):
 def main():
     report = {'repo': REPO, 'files': [], 'changed': [], 'errors': []}
     ok = True
-    for name, gen in (('Funs.v', gen_funs), ('Tables.v', lambda: emit_tables(gen_tables()))):
+    for name, gen in (('Funs.v', gen_funs), ('Tables.v', lambda: emit_tables(gen_tables())), ('Layouts.v', gen_layouts)):
         try:
             content = gen()
             if write_if_changed(os.path.join(OUT, name), content):
